@@ -344,6 +344,57 @@ def build_catalogue() -> Catalogue:
                 )
             )
 
+    # one-option twins: same class, same (D, N), exactly one of dt / L / a coefficient changed. They share the
+    # scheduling group of the base configuration so that base and twin meet in the same simulated runs --
+    # anything memoised on too small a key has something to confuse.
+    coeff_twin = {
+        "stepper.Advection": {"velocity": 0.5},
+        "stepper.Diffusion": {"diffusivity": 0.03},
+        "stepper.AdvectionDiffusion": {"velocity": 0.5},
+        "stepper.Dispersion": {"dispersivity": 0.5},
+        "stepper.HyperDiffusion": {"hyper_diffusivity": 3e-4},
+        "stepper.Wave": {"speed_of_sound": 0.5},
+        "stepper.generic.GeneralLinearStepper": {"linear_coefficients": (0.0, -0.2, 0.02)},
+        "stepper.Burgers": {"diffusivity": 0.05},
+        "stepper.KortewegDeVries": {"dispersivity": 0.5},
+        "stepper.KuramotoSivashinsky": {"second_order_scale": 1.2},
+        "stepper.KuramotoSivashinskyConservative": {"second_order_scale": 1.2},
+        "stepper.generic.GeneralConvectionStepper": {"convection_scale": 0.5},
+        "stepper.generic.GeneralGradientNormStepper": {"gradient_norm_scale": 0.5},
+        "stepper.generic.GeneralPolynomialStepper": {"polynomial_coefficients": (0.0, 0.0, -5.0)},
+        "stepper.generic.GeneralNonlinearStepper": {"nonlinear_coefficients": (0.0, -0.5, 0.0)},
+        "stepper.reaction.AllenCahn": {"diffusivity": 0.01},
+        "stepper.reaction.CahnHilliard": {"gamma": 2e-3},
+        "stepper.reaction.FisherKPP": {"reactivity": 0.5},
+        "stepper.reaction.GrayScott": {"feed_rate": 0.03},
+        "stepper.reaction.SwiftHohenberg": {"reactivity": 0.5},
+        "stepper.NavierStokesVorticity": {"diffusivity": 0.02},
+    }
+    for name, ckw in coeff_twin.items():
+        for d in (1, 2):
+            if name == "stepper.NavierStokesVorticity" and d == 1:
+                continue
+            n = _N[d][0]
+            base = _cfg_key(name, d, n, {})
+            for tname, L_, dt_, kw_ in (("dt=0.1", _L, 0.1, {}), ("L=2.0", 2.0, _DT, {}), ("coeff", _L, _DT, ckw), ("order=3", _L, _DT, {"order": 3}), ("order=4", _L, _DT, {"order": 4})):
+                if tname.startswith("order=") and ("order" not in _resolve(name).__init__.__code__.co_varnames):
+                    continue
+
+                def mk(name=name, d=d, n=n, L_=L_, dt_=dt_, kw_=kw_):
+                    return _resolve(name)(d, L_, n, dt_, **kw_)
+
+                tk = f"{name}[D={d},N={n},twin:{tname}]"
+                cat.add(Op(f"construct:{tk}", lambda pool, mk=mk: _array_leaves(mk()), (f"exponax.{name}",), base, cost=1))
+                cat.add(
+                    Op(
+                        f"eager:{tk}",
+                        lambda pool, mk=mk, d=d, n=n: (lambda s: s(_field(s.num_channels, d, n)))(mk()),
+                        (f"exponax.{name}",),
+                        base,
+                        cost=2,
+                    )
+                )
+
     # steppers built under filter_vmap over a constructor parameter (README "parameter sweeps")
     sweeps = [
         # stepper.Diffusion is deliberately absent: building it under filter_vmap over `diffusivity`
@@ -420,6 +471,55 @@ def build_catalogue() -> Catalogue:
         )
 
     cat.add(Op("stack_sub_trajectories", _substack, ("exponax.stack_sub_trajectories",), "traj"))
+    for n_steps in (0, 1, 2, 5):
+        for include_init in (False, True):
+
+            def _roll(pool, n_steps=n_steps, include_init=include_init):
+                s = ex.stepper.KuramotoSivashinsky(1, _L, 16, _DT)
+                u = _field(1, 1, 16)
+                return ex.rollout(s, n_steps, include_init=include_init)(u), ex.repeat(s, n_steps)(u)
+
+            cat.add(Op(f"rollout-n:KS[n={n_steps},init={include_init}]", _roll, ("exponax.rollout", "exponax.repeat"), "traj", cost=2))
+    for sub in (1, 2, 3):
+
+        def _rep(pool, sub=sub):
+            s = ex.RepeatedStepper(ex.stepper.Burgers(1, _L, 16, _DT), sub)
+            return s(_field(1, 1, 16)), _array_leaves(s)
+
+        cat.add(Op(f"repeated-n:Burgers[sub={sub}]", _rep, ("exponax.RepeatedStepper",), "traj", cost=2))
+    cat.pool_builders["wrapper:repeated"] = lambda: ex.RepeatedStepper(ex.stepper.KortewegDeVries(1, _L, 16, _DT), 2)
+    cat.pool_builders["wrapper:forced"] = lambda: ex.ForcedStepper(ex.stepper.AdvectionDiffusion(1, _L, 16, _DT))
+    for v in (0, 1):
+        cat.add(
+            Op(
+                f"shared-repeated:KdV[variant={v}]",
+                lambda pool, v=v: pool.get("wrapper:repeated")(_field(1, 1, 16, v)),
+                ("exponax.RepeatedStepper",),
+                "traj",
+                uses_pool=True,
+                cost=2,
+            )
+        )
+        cat.add(
+            Op(
+                f"shared-forced:AdvectionDiffusion[variant={v}]",
+                lambda pool, v=v: pool.get("wrapper:forced")(_field(1, 1, 16, v), _field(1, 1, 16, v + 2)),
+                ("exponax.ForcedStepper",),
+                "traj",
+                uses_pool=True,
+                cost=2,
+            )
+        )
+    for sub_len, T in ((1, 6), (2, 6), (4, 6), (6, 6), (2, 5), (4, 5)):
+        cat.add(
+            Op(
+                f"stack_sub_trajectories[sub_len={sub_len},T={T}]",
+                lambda pool, sub_len=sub_len, T=T: ex.stack_sub_trajectories(jnp.stack([_field(1, 1, 16, v) for v in range(T)]), sub_len),
+                ("exponax.stack_sub_trajectories",),
+                "traj",
+            )
+        )
+
 
     # ---------------------------------------------------------------- spectral utilities
     for d in (1, 2, 3):
@@ -669,16 +769,16 @@ def build_catalogue() -> Catalogue:
             ),
         }
         for gname, mkgen in gens.items():
-            for seed in (0, 7):
+            for seed, nn in ((0, n), (7, n), (0, _N[d][-1] if d < 3 else 5)):
 
-                def _draw(pool, mkgen=mkgen, seed=seed, n=n):
+                def _draw(pool, mkgen=mkgen, seed=seed, nn=nn):
                     import jax.random as jr
 
-                    return mkgen()(n, key=jr.PRNGKey(seed))
+                    return mkgen()(nn, key=jr.PRNGKey(seed))
 
                 cat.add(
                     Op(
-                        f"ic:{gname}[D={d},N={n},key={seed}]",
+                        f"ic:{gname}[D={d},N={nn},key={seed}]",
                         _draw,
                         (f"exponax.ic.{gname.split('/')[0]}",),
                         f"ic{d}",
@@ -691,6 +791,13 @@ def build_catalogue() -> Catalogue:
             return ex.build_ic_set(ic.RandomTruncatedFourierSeries(d, cutoff=2), num_points=n, num_samples=3, key=jr.PRNGKey(3))
 
         cat.add(Op(f"build_ic_set[D={d}]", _ic_set, ("exponax.build_ic_set", "exponax.ic.RandomTruncatedFourierSeries"), f"ic{d}"))
+
+        def _ic_set2(pool, n=n):
+            import jax.random as jr
+
+            return ex.build_ic_set(ic.GaussianRandomField(d, domain_extent=_L), num_points=n, num_samples=2, key=jr.PRNGKey(4))
+
+        cat.add(Op(f"build_ic_set/GRF[D={d}]", _ic_set2, ("exponax.build_ic_set", "exponax.ic.GaussianRandomField"), f"ic{d}"))
 
         def _function_form(pool, n=n):
             import jax.random as jr
@@ -730,6 +837,61 @@ def build_catalogue() -> Catalogue:
 
     for d in (1, 2, 3):
         _ic_ops(d)
+
+    # function-form ICs and generator objects shared by all callers of a run: evaluated several times, on
+    # different grids, from different threads -- an object that can only be used once, or that keeps
+    # something from its previous evaluation, shows up as a difference from its first (isolated) use
+    def _shared_ic(d):
+        import jax.random as jr
+
+        n = _N[d][0]
+        n2 = _N[d][-1] if d < 3 else 5
+        funs = {
+            "RandomDiscontinuities": lambda: ic.RandomDiscontinuities(d, domain_extent=_L, zero_mean=True).gen_ic_fun(key=jr.PRNGKey(5)),
+            "RandomGaussianBlobs": lambda: ic.RandomGaussianBlobs(d, domain_extent=_L, num_blobs=2).gen_ic_fun(key=jr.PRNGKey(5)),
+            "ScaledICGenerator": lambda: ic.ScaledICGenerator(ic.RandomGaussianBlobs(d, domain_extent=_L), 2.0).gen_ic_fun(key=jr.PRNGKey(5)),
+            "RandomMultiChannelICGenerator": lambda: ic.RandomMultiChannelICGenerator(
+                (ic.RandomDiscontinuities(d, domain_extent=_L), ic.RandomGaussianBlobs(d, domain_extent=_L))
+            ).gen_ic_fun(key=jr.PRNGKey(5)),
+        }
+        if d == 1:
+            funs["RandomSineWaves1d"] = lambda: ic.RandomSineWaves1d(1, domain_extent=_L, cutoff=3).gen_ic_fun(key=jr.PRNGKey(5))
+        for gname, mkfun in funs.items():
+            pk = f"icfun:{gname}[D={d}]"
+            cat.pool_builders[pk] = mkfun
+            for nn in (n, n2):
+                cat.add(
+                    Op(
+                        f"shared-icfun:{gname}[D={d},N={nn}]",
+                        lambda pool, pk=pk, nn=nn: pool.get(pk)(ex.make_grid(d, _L, nn)),
+                        (f"exponax.ic.{gname}",),
+                        f"ic{d}",
+                        uses_pool=True,
+                    )
+                )
+        gens = {
+            "GaussianRandomField": lambda: ic.GaussianRandomField(d, domain_extent=_L, std_one=True),
+            "RandomTruncatedFourierSeries": lambda: ic.RandomTruncatedFourierSeries(d, cutoff=3, max_one=True),
+            "DiffusedNoise": lambda: ic.DiffusedNoise(d, domain_extent=_L),
+            "RandomDiscontinuities": lambda: ic.RandomDiscontinuities(d, domain_extent=_L, max_one=True),
+            "ClampingICGenerator": lambda: ic.ClampingICGenerator(ic.GaussianRandomField(d, domain_extent=_L), limits=(-1.0, 1.0)),
+        }
+        for gname, mkgen in gens.items():
+            pk = f"icgen:{gname}[D={d}]"
+            cat.pool_builders[pk] = mkgen
+            for seed, nn in ((1, n), (2, n), (1, n2)):
+                cat.add(
+                    Op(
+                        f"shared-icgen:{gname}[D={d},N={nn},key={seed}]",
+                        lambda pool, pk=pk, nn=nn, seed=seed: pool.get(pk)(nn, key=jr.PRNGKey(seed)),
+                        (f"exponax.ic.{gname}",),
+                        f"ic{d}",
+                        uses_pool=True,
+                    )
+                )
+
+    for d in (1, 2, 3):
+        _shared_ic(d)
 
     def _sines(pool):
         import jax.random as jr
